@@ -116,8 +116,9 @@ fn expectation(name: &str, st: BankOperationalState) -> Expect {
     use BankOperationalState::*;
     // exact instruction names, optionally followed by a "(variant)" suffix
     let is = |p: &str| name == p || name.starts_with(&format!("{p}("));
-    let dep_or_borrow = is("lending_account_deposit") || is("lending_account_borrow");
-    let wd_or_repay = is("lending_account_withdraw") || is("lending_account_repay");
+    // (deposits into / withdrawals from a venue-backed bank are deposits and withdrawals)
+    let dep_or_borrow = is("lending_account_deposit") || is("lending_account_borrow") || is("drift_deposit");
+    let wd_or_repay = is("lending_account_withdraw") || is("lending_account_repay") || is("drift_withdraw");
     let liq_or_bankr = is("lending_account_liquidate") || is("lending_pool_handle_bankruptcy");
     // a third party's (or the risk admin's) bracket whose body repays into / withdraws from the bank in question:
     // these are the same withdraw and repay instructions
